@@ -80,7 +80,9 @@ def _gen_from(rnd):
         if a:
             acls.append(["G%d" % i, a])
     return {"vendor": vendor, "rules": rules, "old": RL.plain(old), "new": RL.plain(new), "acls": acls,
-            "acl_indents": [rnd.choice([0, 0, 4, 8]) for _ in acls], "acl_comments": rnd.choice([0, 0, 1, 2, 3])}
+            "acl_indents": [rnd.choice([0, 0, 4, 8]) for _ in acls], "acl_comments": rnd.choice([0, 0, 1, 2, 3]),
+            # --filter-acl: a second ACL, applied to the diff after the generators' one (both must allow a change)
+            "filter": acl_from(rnd, rules, skip=25, seen_keys=None) if rnd.chance(30) else None}
 
 
 @st.composite
@@ -151,27 +153,36 @@ def check(case):
     acl = compile_acl_text(atext, vendor)
     actx = RA.ACtx.top(named)
     old, new = RL.to_odict(case["old"]), RL.to_odict(case["new"])
-    d, pt = sut.diff_and_patch(vendor, old, new, rb, acl=acl)
+    filt, fctx = None, None
+    if case.get("filter"):
+        ftext = RA.acl_text(case["filter"])
+        filt = compile_acl_text(ftext, vendor)
+        fctx = RA.ACtx.top([("filter", case["filter"])])
+        labels.append("filter-acl")
+    d, pt = sut.diff_and_patch(vendor, old, new, rb, acl=acl, filter_acl=filt)
     paths = sut.cmd_paths(vendor, pt)
-    det = {"rulebook": RL.rule_text(rules), "acl": atext, "paths": paths}
+    det = {"rulebook": RL.rule_text(rules), "acl": atext, "paths": paths, "filter_acl": RA.acl_text(case["filter"]) if case.get("filter") else None}
     if paths:
         labels.append("patch-nonempty")
     for p in paths:
         if not _path_covered(p, actx, rev, exitw):
             raise Violation("uncovered-command", f"command path {p!r} is not covered by the combined ACL", det)
+        if fctx is not None and not _path_covered(p, fctx, rev, exitw):
+            raise Violation("uncovered-command", f"command path {p!r} is not covered by the filter ACL", det)
     try:
         got = apply(paths, old, ctx, rev, exitw)
     except SimError as e:
         raise Violation("exec-error", str(e), det)
     det["device_after"] = RL.plain(got)
-    for path, cov, nd in _walk(old, actx):
+    for which, path, cov, nd in [("the combined ACL",) + x for x in _walk(old, actx)] + \
+            ([("the filter ACL",) + x for x in _walk(old, fctx)] if fctx is not None else []):
         anc_ok = all(_get(got, path[:i]) is not None for i in range(1, len(path)))
         if not cov:
             if len(path) >= 2:
                 labels.append("uncovered-nested")
             now = _get(got, path)
             if anc_ok and (now is None or RL.plain(now) != RL.plain(_get(old, path))):
-                raise Violation("foreign-row-changed", f"row {path!r} is covered by no ACL rule but was changed/removed by the patch", det)
+                raise Violation("foreign-row-changed", f"row {path!r} is covered by no rule of {which} but was changed/removed by the patch", det)
         elif nd:
             c = ctx
             for b in path[:-1]:
@@ -184,7 +195,7 @@ def check(case):
             if anc_ok:
                 par = _get(got, path[:-1])
                 if not any(c.ident(r) == ident for r in par):
-                    raise Violation("cant-delete-removed", f"row {path!r} is covered only by not-deletable rules but is gone after the patch", det)
+                    raise Violation("cant-delete-removed", f"row {path!r} is covered only by not-deletable rules of {which} but is gone after the patch", det)
     return labels
 
 
